@@ -291,7 +291,11 @@ EvalCallable(p, name, A, path, ctx) ==
 EvalPipe(p, pl, A, path, ctx) ==
     LET env0 == [self |-> A.v, selfpv |-> A.pv, selfdm |-> A.dm,
                  selft |-> [x \in DOMAIN A.v |-> Lookup(pl.ins, x).t], res |-> <<>>]
-        done == EvalCalls(p, pl, env0, 1, path, ctx)
+        \* every call that is not a preflight waits for all the preflight calls of the pipeline,
+        \* wherever they are written (a preflight call takes no outputs of other calls): they
+        \* are evaluated first
+        plo == [pl EXCEPT !.calls = SelectSeq(pl.calls, LAMBDA c : c.pre) \o SelectSeq(pl.calls, LAMBDA c : ~c.pre)]
+        done == EvalCalls(p, plo, env0, 1, path, ctx)
         rets == Tup([i \in DOMAIN pl.ret |-> Eval(p, done.env, pl.ret[i].e)], 1, Len(pl.ret))
         ri(x) == CHOOSE i \in DOMAIN pl.ret : pl.ret[i].n = x
         onames == {pl.ret[i].n : i \in DOMAIN pl.ret}
